@@ -648,7 +648,20 @@ impl<'a, 't, 'g> VGen<'a, 't, 'g> {
                     let s = self.t.below(self.structs.len());
                     let nm = self.structs[s].name.clone();
                     let ty = self.type_ref(&nm);
-                    (InitialValueAssignmentKind::LateResolvedType(ty), VKind::Struct(s))
+                    let fields = self.structs[s].fields.clone();
+                    if !fields.is_empty() && self.t.ratio(1, 3) && self.g.want("STRUCT_VARIABLE_WITH_INITIALISER") {
+                        // `v : S := (f := 1)`: one or two elementary fields of the structure initialised
+                        // (a use of the type name like any other)
+                        let k = self.t.below(fields.len());
+                        let mut elements_init = vec![StructureElementInit { name: id(&fields[k].0), init: StructInitialValueAssignmentKind::Constant(self.elem_const(&fields[k].1)) }];
+                        if fields.len() > 1 && self.t.flag() {
+                            let k2 = (k + 1) % fields.len();
+                            elements_init.push(StructureElementInit { name: id(&fields[k2].0), init: StructInitialValueAssignmentKind::Constant(self.elem_const(&fields[k2].1)) });
+                        }
+                        (InitialValueAssignmentKind::Structure(StructureInitializationDeclaration { type_name: ty, elements_init }), VKind::Struct(s))
+                    } else {
+                        (InitialValueAssignmentKind::LateResolvedType(ty), VKind::Struct(s))
+                    }
                 }
                 7 if !constant => {
                     if !self.array_types.is_empty() && self.t.flag() {
